@@ -2,6 +2,7 @@ package main
 
 import (
 	"fmt"
+	"go/ast"
 	"go/constant"
 	"go/token"
 	"go/types"
@@ -41,6 +42,7 @@ func (e *Engine) VerifyFunc(fn *ssa.Function, con *Contract) (g *Gen, err error)
 		return g, fmt.Errorf("%s: %v", g.fnName, err)
 	}
 	g.collectSelectors()
+	g.prescanLocals()
 	g.decls = append(g.decls, "(declare-fun brk0 () Int)")
 	g.assert("(> brk0 0)")
 	g.init = &State{heap: map[string]string{}, ghost: map[string]string{}}
@@ -439,6 +441,7 @@ func (g *Gen) execInstr(in ssa.Instruction) error {
 	s := g.cur
 	switch x := in.(type) {
 	case *ssa.DebugRef:
+		g.execDebugRef(x)
 	case *ssa.Alloc:
 		elem := x.Type().(*types.Pointer).Elem()
 		ref := g.alloc(s)
@@ -1069,5 +1072,91 @@ func (g *Gen) checkEnsures(results []*Val, pos token.Pos, site string) {
 	}
 	if g.con.HasMod {
 		g.checkFrame(env, pos, site)
+	}
+}
+
+// execDebugRef tracks source-level local variables so that contracts can name them.
+func (g *Gen) execDebugRef(x *ssa.DebugRef) {
+	id, ok := x.Expr.(*ast.Ident)
+	if !ok {
+		return
+	}
+	obj := g.fn.Pkg.Pkg.Scope().Innermost(id.Pos())
+	_ = obj
+	var o types.Object
+	if info := g.eng.typesInfo(g.fn); info != nil {
+		o = info.ObjectOf(id)
+	}
+	v, isVar := o.(*types.Var)
+	if !isVar || v.IsField() {
+		return
+	}
+	name := v.Name()
+	if name == "_" {
+		return
+	}
+	val, ok := g.vals[x.X]
+	if !ok {
+		if _, isC := x.X.(*ssa.Const); isC {
+			val = g.val(x.X)
+		} else if _, isG := x.X.(*ssa.Global); isG {
+			return
+		} else if _, isF := x.X.(*ssa.Function); isF {
+			return
+		} else {
+			return
+		}
+	}
+	if x.IsAddr {
+		g.localAddr[name] = val
+		delete(g.cur.ghost, "$local:"+name)
+		return
+	}
+	if val.T == "" {
+		return
+	}
+	delete(g.localAddr, name)
+	gn := "$local:" + name
+	g.ghostSorts[gn] = g.st.sortOf(v.Type())
+	g.localTypes[gn] = v.Type()
+	if g.st.sortOf(x.X.Type()) != g.ghostSorts[gn] {
+		return
+	}
+	g.cur.ghost[gn] = val.T
+}
+
+// prescanLocals records the types of the function's source-level locals, so a
+// contract can mention a local at a point where it has no value yet (it then
+// denotes an arbitrary value of its type).
+func (g *Gen) prescanLocals() {
+	g.localObjs = map[string]types.Object{}
+	g.localAmbig = map[string]bool{}
+	g.localTypes = map[string]types.Type{}
+	g.localAddr = map[string]*Val{}
+	info := g.eng.typesInfo(g.fn)
+	if info == nil {
+		return
+	}
+	for _, b := range g.fn.Blocks {
+		for _, in := range b.Instrs {
+			dr, ok := in.(*ssa.DebugRef)
+			if !ok {
+				continue
+			}
+			id, ok := dr.Expr.(*ast.Ident)
+			if !ok || id.Name == "_" {
+				continue
+			}
+			v, isVar := info.ObjectOf(id).(*types.Var)
+			if !isVar || v.IsField() {
+				continue
+			}
+			if prev, ok := g.localObjs[id.Name]; ok && prev != types.Object(v) {
+				g.localAmbig[id.Name] = true
+			}
+			g.localObjs[id.Name] = v
+			g.localTypes["$local:"+id.Name] = v.Type()
+			g.ghostSorts["$local:"+id.Name] = g.st.sortOf(v.Type())
+		}
 	}
 }
